@@ -15,11 +15,17 @@ Domains (all decidable, `Bool`-valued):
                  elements additionally without `}`                              (RowOK)
   dbFree line    no `{ws{ws}ws}` pattern in the written line                    (D4 exclusion)
   docOK io d     the whole-document domain of Model/YannyDom.lean               (DocOK)
+
+File level (second half of this file): `front_render` (front half of `_parse` on the written text),
+`typing_render` (typing from the typedef text), `loop_render` (the line loop over the whole rest
+text), `finish_render` (record arrays), `parse_render` (docOK d → parseFile (renderFile d) = canon d),
+`docOK_select` (the selection conjunct of docOK is implied by distinct names).
 -/
 import PydlVerif.Lemmas.YannyRow
 import PydlVerif.Lemmas.YannyPair
+import PydlVerif.Lemmas.YannyGlue
 namespace PydlVerif.C01
-open PydlVerif.Yanny
+open PydlVerif.Yanny PydlVerif.YannyRT
 
 variable {F : Type}
 
@@ -370,26 +376,14 @@ theorem lineStep_pair (io : FloatIO F) (specs : List (Str × Except String (List
     getToken_pairLine k v hne (fun c hc => (hsp c hc).1) hh1 hh2, hs]
 
 /-
-Full-strength target (stated, NOT proved):
+The whole-file theorem
 
   theorem parse_render (io : FloatIO F) (h1 : H1 io) (h2 : H2 io) (d : Doc F) (hd : docOK io d = true) :
-      (renderFile io d).bind (parseFile io) = .ok (canon d)
+      ∃ text, renderFile io d = .ok text ∧ parseFile io text = .ok (canon d)
 
-i.e. every in-domain document (several tables, zero-row tables, header pairs, enum declarations,
-any comment block) reads back as its canonical form.  It is checked on every generated document
-by the harness (stream doc-m), and what is proved of it is:
-  * `unsupported_refused` / `unsupported_not_rendered` (the refusal half),
-  * `lineStep_pair`: a header line is recorded as (key, strip value),
-  * `parse_render_partial` below: the data section.  Given the symbol table the front half of
-    `_parse` produces (`specs`: upper-cased struct name ↦ column specs), the line loop run over the
-    data lines written for a table appends exactly that table's rows, in order, to that table and
-    changes nothing else (keyword pairs, other tables) - for any number of rows incl. none,
-    every schema, every fitting row, from any loop state.
-Missing for the full theorem: (1) `front (renderFile d)` = the symbol table of `d` (continuation
-joining is the identity on written text, typedef extraction returns the written definitions and
-removes exactly them); (2) `colSpecs`/`rcolOf` on a written struct text return the column's
-kind, shape and record type; (3) gluing `lineStep_row`, `lineStep_pair` and the skipped
-comment/blank lines over the whole rest text; (4) `finishTable` is the identity on in-range cells.
+is proved at the end of this file (with its four pieces `front_render`, `typing_render`, `loop_render`,
+`finish_render`).  `parse_render_partial` below is its data section in the form C03 uses: the line
+loop, from ANY state and for ANY symbol table that knows the table, appends the rows written for it.
 -/
 
 /-- data section of the whole-file theorem -/
@@ -412,6 +406,444 @@ theorem parse_render_partial (io : FloatIO F) (h1 : H1 io) (h2 : H2 io)
       simp only [List.map, lineLoop, lineStep_row io h1 h2 specs st T hT hU sch hs x xs hfit hdb]
       rw [ih (fun r' hr' => hrows r' (by simp [hr']))]
       rfl
+
+/-! ## the whole file: `parse_render`
+
+First the helpers that rest on the line lemmas above (`bareWord_of_wordOK` … `row_lineOK`, with
+`loop_written`, the general form of piece 3); everything that does not need them is in
+Lemmas/YannyGlue.lean, YannyFront.lean, YannyScan.lean, YannyTyping.lean.  Then the property theorems
+`front_render`, `typing_render`, `loop_render`, `finish_render`, `parse_render`, `docOK_select`. -/
+
+theorem bareWord_of_wordOK (s : Str) (h : wordOK s = true) : bareWord s = true := by
+  obtain ⟨hne, hch⟩ := wordOK_props s h
+  simp only [bareWord, Bool.and_eq_true, Bool.not_eq_true', List.all_eq_true, bne_iff_ne, ne_eq]
+  refine ⟨⟨?_, ?_⟩, ?_⟩
+  · cases s with
+    | nil => exact absurd rfl hne
+    | cons a t => rfl
+  · intro c hc
+    have := word_char_props c (hch c hc).2 (hch c hc).1
+    exact ⟨⟨⟨this.1, this.2.1⟩, this.2.2.1⟩, this.2.2.2.1⟩
+  · cases s with
+    | nil => exact absurd rfl hne
+    | cons a t =>
+      have := word_char_props a (hch a (by simp)).2 (hch a (by simp)).1
+      simp only [List.head?_cons, Option.some.injEq]
+      exact this.2.2.2.2.1
+
+theorem seg_pairs (io : FloatIO F) (specs : List (Str × Except String (List ColSpec)))
+    (hdr : List (Str × Str)) (P : List (Str × Str)) (R : List (Str × List (List (Cell F))))
+    (hok : ∀ kv ∈ hdr, PairLineOK specs kv) (hnd : nodup (hdr.map (·.1)) = true)
+    (hdis : ∀ kv ∈ hdr, ∀ p ∈ P, p.1 ≠ kv.1) :
+    Seg io specs ⟨P, R⟩ ((hdr.map (fun kv => kv.1 ++ ' ' :: kv.2 ++ ['\n'])).flatten)
+      ⟨P ++ hdr.map (fun kv => (kv.1, strip kv.2)), R⟩ := by
+  induction hdr generalizing P with
+  | nil => simpa using Seg.refl io specs ⟨P, R⟩
+  | cons kv rest ih =>
+    obtain ⟨a1, a2, a3, a4, a5, a6, a7, a8⟩ := hok kv (by simp)
+    obtain ⟨n1, n2⟩ := nodup_cons _ _ hnd
+    have hline : '\n' ∉ kv.1 ++ ' ' :: kv.2 := by
+      intro hm
+      simp only [List.mem_append, List.mem_cons] at hm
+      rcases hm with h | h | h
+      · exact (a2 _ h).2.2 rfl
+      · exact absurd h (by decide)
+      · exact a6 h
+    have hstep := lineStep_pair io specs ⟨P, R⟩ kv.1 kv.2 a1 (fun c hc => ⟨(a2 c hc).1, (a2 c hc).2.1⟩)
+      a3 a4 a5 a7 a8
+    rw [show (⟨P, R⟩ : LoopSt F).pairs = P from rfl, setPair_new P kv.1 (strip kv.2) (hdis kv (by simp))] at hstep
+    have s1 := Seg.line io specs ⟨P, R⟩ _ (kv.1 ++ ' ' :: kv.2) hline hstep
+    have s2 := ih (P ++ [(kv.1, strip kv.2)]) (fun x hx => hok x (by simp [hx])) n2 (by
+      intro x hx p hp
+      rcases List.mem_append.mp hp with h | h
+      · exact hdis x (by simp [hx]) p h
+      · simp only [List.mem_singleton] at h
+        subst h
+        intro e
+        exact n1 (List.mem_map.mpr ⟨x, hx, e.symm⟩))
+    have := Seg.trans s1 s2
+    simpa [List.append_assoc] using this
+
+theorem fmtRow_noNewline (io : FloatIO F) (h2 : H2 io) (T : Str) (hT : bareWord T = true)
+    (sch : List ColSpec) (r : List (Cell F)) (hne : r ≠ []) (hr : rowFits sch r = true) :
+    '\n' ∉ fmtRow io T r := by
+  cases r with
+  | nil => exact absurd rfl hne
+  | cons x xs =>
+    have hb := (body_rest io h2 x xs (rowFits_mem _ _ hr)).2
+    have hT' := (bareWord_props T hT).2.1
+    have e : fmtRow io T (x :: xs) = T ++ ' ' :: joinSp ((x :: xs).map (fmtCell io)) := rfl
+    rw [e]
+    intro hm
+    simp only [List.mem_append, List.mem_cons] at hm
+    rcases hm with h | h | h
+    · exact (hT' _ h).2.2.2 rfl
+    · exact absurd h (by decide)
+    · exact hb h
+
+/-- what `lineStep_row` needs of a table and its rows -/
+def TabOK (io : FloatIO F) (specs : List (Str × Except String (List ColSpec))) (t : TableD F) : Prop :=
+  bareWord (upper t.name) = true ∧ upper (upper t.name) = upper t.name ∧
+  ∃ sch, lookupSpec specs (upper t.name) = some (.ok sch) ∧
+    ∀ r ∈ t.rows, r ≠ [] ∧ rowFits sch r = true ∧ dbFree (fmtRow io (upper t.name) r) = true
+
+theorem seg_rows (io : FloatIO F) (h1 : H1 io) (h2 : H2 io)
+    (specs : List (Str × Except String (List ColSpec))) (T : Str) (hT : bareWord T = true)
+    (hU : upper T = T) (sch : List ColSpec) (hs : lookupSpec specs T = some (.ok sch))
+    (rows : List (List (Cell F)))
+    (hrows : ∀ r ∈ rows, r ≠ [] ∧ rowFits sch r = true ∧ dbFree (fmtRow io T r) = true)
+    (P : List (Str × Str)) (A B : List (Str × List (List (Cell F)))) (x : List (List (Cell F)))
+    (hA : ∀ e ∈ A, e.1 ≠ T) (hB : ∀ e ∈ B, e.1 ≠ T) :
+    Seg io specs ⟨P, A ++ (T, x) :: B⟩ ((rows.map (fun r => fmtRow io T r ++ ['\n'])).flatten)
+      ⟨P, A ++ (T, x ++ rows) :: B⟩ := by
+  induction rows generalizing x with
+  | nil => simpa using Seg.refl io specs ⟨P, A ++ (T, x) :: B⟩
+  | cons r rs ih =>
+    obtain ⟨hne, hfit, hdb⟩ := hrows r (by simp)
+    have hn := fmtRow_noNewline io h2 T hT sch r hne hfit
+    cases r with
+    | nil => exact absurd rfl hne
+    | cons c cs =>
+      have hstep := lineStep_row io h1 h2 specs ⟨P, A ++ (T, x) :: B⟩ T hT hU sch hs c cs hfit hdb
+      rw [show (⟨P, A ++ (T, x) :: B⟩ : LoopSt F).rows = A ++ (T, x) :: B from rfl,
+        addRow_mid A B T x (c :: cs) hA hB] at hstep
+      have s1 := Seg.line io specs _ _ _ hn hstep
+      have s2 := ih (fun r' hr' => hrows r' (by simp [hr'])) (x ++ [c :: cs])
+      have := Seg.trans s1 s2
+      simpa [List.append_assoc] using this
+
+theorem seg_tables (io : FloatIO F) (h1 : H1 io) (h2 : H2 io)
+    (specs : List (Str × Except String (List ColSpec))) (ts : List (TableD F))
+    (hok : ∀ t ∈ ts, TabOK io specs t) (hnd : nodup (ts.map (fun t => upper t.name)) = true)
+    (P : List (Str × Str)) (done : List (Str × List (List (Cell F))))
+    (hdone : ∀ e ∈ done, ∀ t ∈ ts, e.1 ≠ upper t.name) :
+    Seg io specs ⟨P, done ++ ts.map (fun t => (upper t.name, []))⟩ ((ts.map (rowLines io)).flatten)
+      ⟨P, done ++ ts.map (fun t => (upper t.name, t.rows))⟩ := by
+  induction ts generalizing done with
+  | nil => simpa using Seg.refl io specs ⟨P, done⟩
+  | cons t rest ih =>
+    obtain ⟨b1, b2, sch, b3, b4⟩ := hok t (by simp)
+    obtain ⟨n1, n2⟩ := nodup_cons _ _ hnd
+    have hB : ∀ e ∈ rest.map (fun t => (upper t.name, ([] : List (List (Cell F))))), e.1 ≠ upper t.name := by
+      intro e he
+      obtain ⟨u, hu, rfl⟩ := List.mem_map.mp he
+      intro e'
+      exact n1 (List.mem_map.mpr ⟨u, hu, e'⟩)
+    have s1 := seg_rows io h1 h2 specs (upper t.name) b1 b2 sch b3 t.rows b4 P done
+      (rest.map (fun t => (upper t.name, []))) [] (fun e he => hdone e he t (by simp)) hB
+    have s2 := ih (fun u hu => hok u (by simp [hu])) n2 (done ++ [(upper t.name, t.rows)]) (by
+      intro e he u hu
+      rcases List.mem_append.mp he with h | h
+      · exact hdone e h u (by simp [hu])
+      · simp only [List.mem_singleton] at h
+        subst h
+        intro e'
+        exact n1 (List.mem_map.mpr ⟨u, hu, e'.symm⟩))
+    simp only [List.nil_append] at s1
+    rw [show done ++ [(upper t.name, t.rows)] ++ List.map (fun t => (upper t.name, ([] : List (List (Cell F))))) rest =
+      done ++ (upper t.name, t.rows) :: List.map (fun t => (upper t.name, [])) rest by simp,
+      show done ++ [(upper t.name, t.rows)] ++ List.map (fun t => (upper t.name, t.rows)) rest =
+      done ++ (upper t.name, t.rows) :: List.map (fun t => (upper t.name, t.rows)) rest by simp] at s2
+    have := Seg.trans s1 s2
+    simpa [rowLines] using this
+
+/-- piece (3): the line loop over everything that is left of a written file once the typedef blocks
+are cut out - the `#%yanny` line, the comment block, the header pairs, blank lines, the data lines of
+all tables - records exactly the pairs (values stripped) and appends exactly the rows, in order -/
+theorem loop_written (io : FloatIO F) (h1 : H1 io) (h2 : H2 io)
+    (specs : List (Str × Except String (List ColSpec))) (d : Doc F) (nls : Str)
+    (hnls : ∀ c ∈ nls, c = '\n') (hc : commentsOK d.comments = true)
+    (hp : ∀ kv ∈ d.hdr, PairLineOK specs kv) (hpn : nodup (d.hdr.map (·.1)) = true)
+    (ht : ∀ t ∈ d.tables, TabOK io specs t) (htn : nodup (d.tables.map (fun t => upper t.name)) = true) :
+    lineLoop io specs ⟨[], d.tables.map (fun t => (upper t.name, []))⟩
+      (splitNl ("#%yanny\n".toList ++ d.comments ++
+        (d.hdr.map (fun kv => kv.1 ++ ' ' :: kv.2 ++ ['\n'])).flatten ++ (nls ++ ['\n']) ++
+        (d.tables.map (rowLines io)).flatten)) =
+      .ok ⟨d.hdr.map (fun kv => (kv.1, strip kv.2)), d.tables.map (fun t => (upper t.name, t.rows))⟩ := by
+  let st0 : LoopSt F := ⟨[], d.tables.map (fun t => (upper t.name, []))⟩
+  have s0 : Seg io specs st0 ("#%yanny".toList ++ ['\n']) st0 :=
+    Seg.line io specs st0 st0 _ (by decide) (by simp [lineStep, skipLine_hash])
+  have s1 : Seg io specs st0 d.comments st0 := by
+    simp only [commentsOK, Bool.and_eq_true, Bool.or_eq_true, List.all_eq_true, Bool.not_eq_true'] at hc
+    obtain ⟨⟨⟨⟨hend, hlines⟩, _⟩, _⟩, _⟩ := hc
+    rcases hend with he | he
+    · have : d.comments = [] := List.isEmpty_iff.mp he
+      rw [this]
+      exact Seg.refl io specs st0
+    · obtain ⟨c', hc'⟩ : ∃ c', d.comments = c' ++ ['\n'] := by
+        have := List.getLast?_eq_some_iff.mp (by simpa using he)
+        exact this
+      rw [hc']
+      apply Seg.skip
+      intro l hl
+      have hm : l ∈ splitNl d.comments := by
+        rw [hc', splitNl_cut]
+        exact List.mem_append_left _ hl
+      have := hlines l hm
+      rcases this with h | h
+      · have : l = [] := List.isEmpty_iff.mp h
+        rw [this]; rfl
+      · cases l with
+        | nil => rfl
+        | cons a t =>
+          have : a = '#' := by simpa using h
+          subst this
+          exact skipLine_hash t
+  have s2 := seg_pairs io specs d.hdr [] (d.tables.map (fun t => (upper t.name, ([] : List (List (Cell F))))))
+    hp hpn (by intro _ _ p hp; cases hp)
+  have s3 : Seg io specs ⟨[] ++ d.hdr.map (fun kv => (kv.1, strip kv.2)), d.tables.map (fun t => (upper t.name, []))⟩
+      (nls ++ ['\n']) ⟨[] ++ d.hdr.map (fun kv => (kv.1, strip kv.2)), d.tables.map (fun t => (upper t.name, []))⟩ := by
+    apply Seg.skip
+    intro l hl
+    rw [splitNl_nls nls hnls l hl]
+    rfl
+  have s4 := seg_tables io h1 h2 specs d.tables ht htn ([] ++ d.hdr.map (fun kv => (kv.1, strip kv.2))) []
+    (by intro e he; cases he)
+  simp only [List.nil_append] at s2 s3 s4
+  have all := Seg.trans (Seg.trans (Seg.trans (Seg.trans s0 s1) s2) s3) s4
+  have := all []
+  simp only [List.append_nil] at this
+  rw [show "#%yanny\n".toList = "#%yanny".toList ++ ['\n'] from rfl]
+  rw [this]
+  simp [splitNl, splitNlAux, lineLoop, lineStep, skipLine_nil]
+
+/-- a table of the document domain meets the hypotheses of `lineStep_row` -/
+theorem tabOK_of_tableOK (io : FloatIO F) (specs : List (Str × Except String (List ColSpec)))
+    (enums : List EnumDecl) (t : TableD F) (h : tableOK io enums t = true)
+    (hs : lookupSpec specs (upper t.name) = some (.ok (t.cols.map specOfCol))) : TabOK io specs t := by
+  simp only [tableOK, Bool.and_eq_true, List.all_eq_true, Bool.not_eq_true'] at h
+  obtain ⟨⟨⟨⟨hw, hne⟩, _⟩, _⟩, hrows⟩ := h
+  have hu := upper_wordOK t.name hw
+  refine ⟨bareWord_of_wordOK _ hu.1, hu.2, _, hs, ?_⟩
+  intro r hr
+  have := hrows r hr
+  simp only [rowOK, Bool.and_eq_true] at this
+  obtain ⟨hc, ⟨hdb, _⟩, _⟩ := this
+  refine ⟨cellsOK_ne_nil enums t.cols r ?_ hc, rowFits_of_cellsOK enums t.cols r hc, hdb⟩
+  intro e; rw [e] at hne; simp at hne
+
+theorem row_lineOK (io : FloatIO F) (h2 : H2 io) (enums : List EnumDecl) (t : TableD F)
+    (ht : tableOK io enums t = true) : ∀ r ∈ t.rows, LineOK (fmtRow io (upper t.name) r) := by
+  intro r hr
+  simp only [tableOK, Bool.and_eq_true, List.all_eq_true, Bool.not_eq_true'] at ht
+  obtain ⟨⟨⟨⟨hw, hne⟩, _⟩, _⟩, hrows⟩ := ht
+  have hb := bareWord_of_wordOK _ (upper_wordOK t.name hw).1
+  have := hrows r hr
+  simp only [rowOK, Bool.and_eq_true, Bool.not_eq_true'] at this
+  obtain ⟨hc, ⟨_, hnt⟩, hbs⟩ := this
+  have hcols : t.cols ≠ [] := by intro e; rw [e] at hne; simp at hne
+  have hfit := rowFits_of_cellsOK enums t.cols r hc
+  have hrne := cellsOK_ne_nil enums t.cols r hcols hc
+  refine ⟨hnt, fmtRow_noNewline io h2 _ hb _ r hrne hfit, ?_⟩
+  apply noCont_of_last
+  intro c hcl
+  refine ⟨(fmtRow_shape io h2 _ hb _ r hfit).2.2 c hcl, ?_⟩
+  intro e
+  subst e
+  simp [endsBackslash, hcl] at hbs
+
+/-! ### the four pieces on the document level, and the whole-file theorem -/
+
+/-- the text `renderFile` writes for a document -/
+def textOf (io : FloatIO F) (d : Doc F) : Str :=
+  headText d ++ (defsBlock (blocksOf "enum".toList (enumBlocks d)) ++
+    (defsBlock (blocksOf "struct".toList (structBlocks d)) ++ dataText io d))
+
+/-- what is left of it for the line loop: the typedef blocks are cut out, their blank lines stay -/
+def restOf (io : FloatIO F) (d : Doc F) : Str :=
+  headText d ++ ((defsBlock ((enumBlocks d).map (fun _ => ([] : Str))) ++
+    defsBlock ((structBlocks d).map (fun _ => ([] : Str)))) ++ dataText io d)
+
+/-- the symbol table the line loop works with: upper-cased table name ↦ column specs -/
+def docSpecs (d : Doc F) : List (Str × Except String (List ColSpec)) :=
+  d.tables.map (fun t => (upper t.name, .ok (t.cols.map specOfCol)))
+
+/-- the `_enum_cache` of the read file -/
+def docCache (d : Doc F) : List (Str × List Str) := enumCache (tdefsOf "enum".toList (enumBlocks d))
+
+/-- the conjuncts of `docOK` -/
+theorem docOK_props (io : FloatIO F) (d : Doc F) (hd : docOK io d = true) :
+    commentsOK d.comments = true ∧ (∀ e ∈ d.enums, enumOK e = true) ∧
+    nodup (d.enums.map (fun e => upper e.tyName)) = true ∧
+    (∀ t ∈ d.tables, tableOK io d.enums t = true) ∧ nodup (d.tables.map (fun t => upper t.name)) = true ∧
+    selectOK d = true ∧ (∀ kv ∈ d.hdr, pairOK (d.tables.map (fun t => upper t.name)) kv = true) ∧
+    nodup (d.hdr.map (·.1)) = true := by
+  simp only [docOK, Bool.and_eq_true, List.all_eq_true] at hd
+  obtain ⟨⟨⟨⟨⟨⟨⟨⟨hc, he⟩, _⟩, het⟩, ht⟩, htn⟩, hsel⟩, hp⟩, hpn⟩ := hd
+  exact ⟨hc, he, het, ht, htn, hsel, hp, hpn⟩
+
+theorem docOK_supported (io : FloatIO F) (d : Doc F) (hd : docOK io d = true) :
+    ∀ t ∈ d.tables, ∀ c ∈ t.cols, supported c.ty = true := by
+  obtain ⟨_, _, _, ht, _⟩ := docOK_props io d hd
+  exact fun t hm c hc' => colOK_supported c ((tableOK_props io d.enums t (ht t hm)).2.2.1 c hc')
+
+/-- an in-domain document is rendered, as `textOf` -/
+theorem render_text (io : FloatIO F) (d : Doc F) (hd : docOK io d = true) :
+    renderFile io d = .ok (textOf io d) :=
+  render_shape io d (docOK_props io d hd).2.1 (docOK_supported io d hd)
+
+/-- header lines of an in-domain document meet the hypotheses of `lineStep_pair` -/
+theorem doc_pairs (io : FloatIO F) (d : Doc F) (hd : docOK io d = true) :
+    ∀ kv ∈ d.hdr, PairLineOK (docSpecs d) kv := by
+  obtain ⟨_, _, _, _, _, _, hp, _⟩ := docOK_props io d hd
+  have hspn : ∀ k, k ∉ d.tables.map (fun t => upper t.name) → lookupSpec (docSpecs d) k = none := by
+    intro k hk
+    apply lookupSpec_none
+    simpa [docSpecs, List.map_map, Function.comp_def] using hk
+  exact fun kv hm => pairLineOK_of_pairOK (docSpecs d) _ hspn kv (hp kv hm)
+
+/-- **piece (1)**: the front half of `_parse` on the written text - continuation joining is the
+identity, typedef extraction returns exactly the written struct and enum definitions, in order, and
+cuts exactly them out of the text; the symbol table lists every table (upper-cased) with its columns -/
+theorem front_render (io : FloatIO F) (h2 : H2 io) (d : Doc F) (hd : docOK io d = true) :
+    front (textOf io d) =
+      ⟨tdefsOf "struct".toList (structBlocks d), tdefsOf "enum".toList (enumBlocks d),
+       d.tables.map (fun t => (upper t.name, t.cols.map (·.name))), restOf io d⟩ := by
+  obtain ⟨hc, he, _, ht, htn, _, hp, _⟩ := docOK_props io d hd
+  have htp := fun t (hm : t ∈ d.tables) => tableOK_props io d.enums t (ht t hm)
+  have hbE : ∀ b ∈ enumBlocks d, blockOK b.1 b.2 ∧ '\\' ∉ blockText "enum".toList b.1 b.2 := by
+    intro b hb
+    unfold enumBlocks at hb
+    split at hb
+    · cases hb
+    · obtain ⟨e, hm, rfl⟩ := List.mem_map.mp hb
+      obtain ⟨hw, hne, hl⟩ := enumOK_props e (he e hm)
+      refine ⟨enumBody_blockOK e (he e hm), block_nobs _ _ _ (Or.inr rfl) (enumBody_nobs _ hl) ?_⟩
+      intro hmem
+      exact wordCh_ne_bs _ ((wordOK_props _ (upper_wordOK _ hw).1).2 _ hmem).1 rfl
+  have hbS : ∀ b ∈ structBlocks d, blockOK b.1 b.2 ∧ '\\' ∉ blockText "struct".toList b.1 b.2 := by
+    intro b hb
+    obtain ⟨t, hm, rfl⟩ := List.mem_map.mp hb
+    obtain ⟨hw, _, hcol, _, _⟩ := htp t hm
+    have hms : ∀ m ∈ t.cols.map (member d.enums), memOK m := by
+      intro m hm'
+      obtain ⟨x, hx, rfl⟩ := List.mem_map.mp hm'
+      exact member_ok d.enums x (hcol x hx) he
+    refine ⟨structBody_blockOK _ hms t.name hw, block_nobs _ _ _ (Or.inl rfl) (structBody_nobs _ hms) ?_⟩
+    intro hmem
+    exact wordCh_ne_bs _ ((wordOK_props _ (upper_wordOK _ hw).1).2 _ hmem).1 rfl
+  have hndS : nodup ((structBlocks d).map (fun b => upper b.2)) = true := by
+    have : (structBlocks d).map (fun b => upper b.2) = d.tables.map (fun t => upper t.name) := by
+      unfold structBlocks
+      rw [List.map_map]
+      apply List.map_congr_left
+      intro t hm
+      exact (upper_wordOK t.name (htp t hm).1).2
+    rw [this]; exact htn
+  have hpl := doc_pairs io d hd
+  have hlp : ∀ kv ∈ d.hdr, LineOK (kv.1 ++ ' ' :: kv.2) :=
+    fun kv hm => pair_lineOK (docSpecs d) _ kv (hp kv hm) (hpl kv hm)
+  have hlr : ∀ t ∈ d.tables, ∀ r ∈ t.rows, LineOK (fmtRow io (upper t.name) r) :=
+    fun t hm => row_lineOK io h2 d.enums t (ht t hm)
+  have hfront := front_written io d (enumBlocks d) (structBlocks d) (fun b hb => (hbE b hb).1)
+    (fun b hb => (hbS b hb).1) (fun b hb => (hbE b hb).2) (fun b hb => (hbS b hb).2) hndS hc hlp hlr
+  rw [symtab_written io d he ht] at hfront
+  exact hfront
+
+/-- **piece (2)**: typing from the typedef text - for every table of the document, `type()`,
+`basetype`, `isarray`, `array_length`, `char_length`, `isenum` on the written struct give the column
+specs the row reader needs and the record-array column types of the canonical form -/
+theorem typing_render (io : FloatIO F) (d : Doc F) (hd : docOK io d = true) :
+    ∀ t ∈ d.tables,
+      colSpecs (structsOf d) (upper t.name) (t.cols.map (·.name)) = .ok (t.cols.map specOfCol) ∧
+      ∀ c ∈ t.cols, ∀ data : List (Cell F),
+        rcolOf (structsOf d) (docCache d) (upper t.name) c.name data = .ok (rcolCanon d.enums c) := by
+  obtain ⟨_, he, het, ht, _, hsel, _, _⟩ := docOK_props io d hd
+  have hselt := select_written d (docOK_supported io d hd) hsel
+  intro t hm
+  have hne : d.tables ≠ [] := by intro e; rw [e] at hm; cases hm
+  obtain ⟨k1, k2⟩ := cache_written d he het hne
+  exact typing_written io d he _ k1 k2 t (ht t hm) (hselt t hm)
+
+/-- **piece (3)**: the line loop over the rest text of the written file (the `#%yanny` line, the
+comment block, the header pairs, the blank lines left by the typedef blocks, the data lines of all
+tables) records exactly the header pairs (values stripped) and the rows of every table, in order -/
+theorem loop_render (io : FloatIO F) (h1 : H1 io) (h2 : H2 io) (d : Doc F) (hd : docOK io d = true) :
+    lineLoop io (docSpecs d) ⟨[], d.tables.map (fun t => (upper t.name, []))⟩ (splitNl (restOf io d)) =
+      .ok ⟨d.hdr.map (fun kv => (kv.1, strip kv.2)), d.tables.map (fun t => (upper t.name, t.rows))⟩ := by
+  obtain ⟨hc, _, _, ht, htn, _, _, hpn⟩ := docOK_props io d hd
+  have htab : ∀ t ∈ d.tables, TabOK io (docSpecs d) t := by
+    intro t hm
+    apply tabOK_of_tableOK io (docSpecs d) d.enums t (ht t hm)
+    have := find_by_key d.tables (fun t => upper t.name)
+      (fun t => (Except.ok (t.cols.map specOfCol) : Except String (List ColSpec))) htn t hm
+    simp only [lookupSpec, docSpecs, this, Option.map_some]
+  have hloop := loop_written io h1 h2 (docSpecs d) d
+    (defsBlock ((enumBlocks d).map (fun _ => ([] : Str))) ++ defsBlock ((structBlocks d).map (fun _ => ([] : Str))))
+    (by
+      intro c hc'
+      rcases List.mem_append.mp hc' with h | h
+      · exact defsBlock_blank_nls _ c h
+      · exact defsBlock_blank_nls _ c h)
+    hc (doc_pairs io d hd) hpn htab htn
+  have hrest : restOf io d =
+      "#%yanny\n".toList ++ d.comments ++ (d.hdr.map (fun kv => kv.1 ++ ' ' :: kv.2 ++ ['\n'])).flatten ++
+        ((defsBlock ((enumBlocks d).map (fun _ => ([] : Str))) ++
+          defsBlock ((structBlocks d).map (fun _ => ([] : Str)))) ++ ['\n']) ++
+        (d.tables.map (rowLines io)).flatten := by
+    unfold restOf headText dataText
+    generalize "#%yanny\n".toList = h0
+    simp only [List.append_assoc, List.cons_append, List.nil_append]
+  rw [hrest]
+  exact hloop
+
+/-- **piece (4)**: `finishTable` is the identity - the record arrays rebuilt from the rows the loop
+read are the document's tables: names, column order, column types, row count and order, every cell -/
+theorem finish_render (io : FloatIO F) (d : Doc F) (hd : docOK io d = true) :
+    finishTables (structsOf d) (docCache d) (d.tables.map (fun t => (upper t.name, t.rows)))
+      (d.tables.map (fun t => (upper t.name, t.cols.map (·.name)))) = .ok (canon d).tables := by
+  obtain ⟨_, _, _, ht, htn, _, _, _⟩ := docOK_props io d hd
+  have htp := fun t (hm : t ∈ d.tables) => tableOK_props io d.enums t (ht t hm)
+  have htyp := typing_render io d hd
+  exact finishTables_written (structsOf d) (docCache d) d.enums
+    d.tables htn d.tables (fun _ h => h) (fun t hm => ⟨(htp t hm).2.1, (htyp t hm).2, fun r hr => by
+      have := (htp t hm).2.2.2.2 r hr
+      simp only [rowOK, Bool.and_eq_true] at this
+      exact this.1⟩)
+
+/-- **file-level round trip**: every document of the domain `docOK` (several tables, tables without
+rows, header pairs, enum declarations, any comment block) is rendered, and the rendered text reads
+back as the document's canonical form: table names upper-cased, column order, column types, row
+count and order, every cell, header values in their stripped text form -/
+theorem parse_render (io : FloatIO F) (h1 : H1 io) (h2 : H2 io) (d : Doc F) (hd : docOK io d = true) :
+    ∃ text, renderFile io d = .ok text ∧ parseFile io text = .ok (canon d) := by
+  refine ⟨_, render_text io d hd, ?_⟩
+  have htyp := typing_render io d hd
+  have hspecs : (d.tables.map (fun t => (upper t.name, t.cols.map (·.name)))).map
+      (fun t => (t.1, colSpecs (structsOf d) t.1 t.2)) = docSpecs d := by
+    unfold docSpecs
+    rw [List.map_map]
+    apply List.map_congr_left
+    intro t hm
+    simp only [Function.comp, (htyp t hm).1]
+  have e2 : List.map (fun t => (t.1, ([] : List (List (Cell F)))))
+      (d.tables.map (fun t => (upper t.name, t.cols.map (·.name)))) =
+      d.tables.map (fun t => (upper t.name, [])) := by
+    rw [List.map_map]; rfl
+  unfold parseFile
+  simp only [front_render io h2 d hd]
+  rw [texts_written d, hspecs, e2, loop_render io h1 h2 d hd]
+  simp only []
+  have hfin := finish_render io d hd
+  unfold docCache at hfin
+  rw [hfin]
+  rfl
+
+/-- the same as one equation -/
+theorem parse_render_bind (io : FloatIO F) (h1 : H1 io) (h2 : H2 io) (d : Doc F) (hd : docOK io d = true) :
+    (renderFile io d).bind (parseFile io) = .ok (canon d) := by
+  obtain ⟨text, hr, hp⟩ := parse_render io h1 h2 d hd
+  rw [hr]
+  exact hp
+
+/-- the conjunct `selectOK` of `docOK` (type() finds each table's own typedef) is implied by the
+others: table names that are distinct ignoring case may contain one another, equal column names,
+enum type names or C type words (the D16/D17 patterns) -/
+theorem docOK_select (io : FloatIO F) (d : Doc F) (ht : ∀ t ∈ d.tables, tableOK io d.enums t = true)
+    (htn : nodup (d.tables.map (fun t => upper t.name)) = true) : selectOK d = true :=
+  selectOK_of_names d
+    (fun t hm c hc' => colOK_supported c ((tableOK_props io d.enums t (ht t hm)).2.2.1 c hc'))
+    (fun t hm => (tableOK_props io d.enums t (ht t hm)).1) htn
 
 /-! ## the hypotheses are satisfiable, the domains are inhabited -/
 
@@ -465,5 +897,27 @@ def sampleDoc : Doc Int :=
 
 set_option maxRecDepth 200000 in
 example : docOK intIO sampleDoc = true := by decide
+
+/-- the whole-file theorem applies to the sample document (two tables, one without rows, an enum
+column, header pairs, comments) with the integer-valued float instance -/
+example : ∃ text, renderFile intIO sampleDoc = .ok text ∧ parseFile intIO text = .ok (canon sampleDoc) :=
+  parse_render intIO (fun _ x => parseInt_fmtInt x)
+    (by
+      intro w x c hc
+      have := intChar_ne c (fmtInt_chars x c hc)
+      exact ⟨this.1, this.2.1, this.2.2.1, this.2.2.2⟩)
+    sampleDoc (by set_option maxRecDepth 200000 in decide)
+
+/-- a document with the D16/D17 name patterns (a table name inside another, equal to a column name and
+to a C type word) is in the domain -/
+def clashDoc : Doc Int :=
+  { comments := [], hdr := [], enums := []
+    tables := [
+      { name := "int".toList, cols := [⟨"a".toList, .i4, 0⟩, ⟨"xint".toList, .i4, 0⟩], rows := [[.one (.int 1), .one (.int 2)]] },
+      { name := "xint".toList, cols := [⟨"int".toList, .S 3, 2⟩], rows := [] },
+      { name := "a".toList, cols := [⟨"a".toList, .f8, 0⟩], rows := [[.one (.flt .f8 5)]] }] }
+
+set_option maxRecDepth 200000 in
+example : docOK intIO clashDoc = true := by decide
 
 end PydlVerif.C01
